@@ -1,11 +1,12 @@
 CONSTANTS
-  Keys <- Keys3
-  Tmpl <- Tmpl3
-  KeyOrd <- Ord3
-  InitEx <- Init3all
+  Keys <- Keys2
+  Tmpl <- Tmpl2
+  KeyOrd <- Ord2
+  InitEx <- Init2
   TO <- TOsmall
-  MaxNow = 3
-  MaxPkt = 1
+  RevAhead = {0, 1}
+  MaxNow = 4
+  MaxPkt = 2
   MaxScan = 1
   Batch = 1000
   Split = FALSE
